@@ -5,7 +5,9 @@
      list   : n x1 .. xn
      option : flag v            (flag 0 = None)
      op     : code a b inc      (0 OList, 1 OTake a, 2 OGet a, 3 OCount, 4 OContains a,
-                                 5 OBetween a b inc, 6 OBefore a inc, 7 OAfter a inc)
+                                 5 OBetween a b inc, 6 OBefore a inc, 7 OAfter a inc,
+                                 8 OSliceTo a = rule[:a], 9 ONegIdx a = rule[-(a+1)],
+                                 10 OXafter a (count b if inc >= 2) (inc odd))
      outcome: Ret l -> 1 n l.. ; Raise e -> 2 e   (e: 1 IndexError, 2 TypeError, 3 ValueError)
      qres   : QVal v -> 0 v ; QNone -> 1 ; QList l -> 2 l.. ; QBool b -> 3 b ; QIndexError -> 4 ;
               QValueError -> 5
@@ -60,6 +62,9 @@ Definition dec_op (c a b i : Z) : option op :=
   else if c =? 5 then Some (OBetween a b (z2b i))
   else if c =? 6 then Some (OBefore a (z2b i))
   else if c =? 7 then Some (OAfter a (z2b i))
+  else if c =? 8 then Some (OSliceTo (Z.to_nat a))
+  else if c =? 9 then Some (ONegIdx (Z.to_nat a))
+  else if c =? 10 then Some (OXafter a (if 2 <=? i then Some b else None) (Z.odd i))
   else None.
 
 Fixpoint dec_ops (m : nat) (l : list Z) : option (list op * list Z) :=
